@@ -102,7 +102,7 @@ func needSep(a, b ptok) bool {
 }
 
 // joinTokens writes the tokens with trivia drawn per gap; base=true gives the canonical spelling
-func joinTokens(toks []ptok, rng *rand.Rand, base bool, edits int) string {
+func joinTokens(toks []ptok, rng *rand.Rand, base bool, edits int, padAll ...bool) string {
 	var sb strings.Builder
 	inMeta := false
 	// choose which gaps / tokens get edited
@@ -150,7 +150,7 @@ func joinTokens(toks []ptok, rng *rand.Rand, base bool, edits int) string {
 					v = "♭"
 				}
 			case "VNUMBER":
-				if rng.Intn(3) == 0 {
+				if rng.Intn(3) == 0 || len(padAll) > 0 && padAll[0] {
 					v = strings.Repeat("0", []int{1, 2, 1, 3, 19, 20, 21, 40}[rng.Intn(8)]) + v
 				}
 			case "SYMBOL":
@@ -213,6 +213,22 @@ func init() {
 				}
 				cases = append(cases, Case{"prog": randomProg(rng, 6, 0.2, 7), "mode": mode, "key": key, "variants": v, "seed": rng.Int63()})
 			}
+			// every duration numeral zero-padded, with numerals of 8 and more (010 is ten, 08 is eight)
+			pool := []Frac{{10, 1}, {8, 1}, {9, 1}, {1, 8}, {1, 10}, {12, 8}, {100, 1}, {18, 11}, {64, 9}}
+			for i := 0; i < n/8+4; i++ {
+				p := randomProg(rng, 4, 0.2, 7)
+				for j := range p {
+					p[j].Vals = []Frac{pool[rng.Intn(len(pool))]}
+					if rng.Intn(3) == 0 {
+						p[j].Vals = append(p[j].Vals, pool[rng.Intn(len(pool))])
+					}
+				}
+				mode, key := "degree", ""
+				if i%2 == 0 {
+					mode, key = "syllable", supportedKeys[rng.Intn(len(supportedKeys))]
+				}
+				cases = append(cases, Case{"prog": p, "mode": mode, "key": key, "variants": 2, "seed": rng.Int63(), "padAll": true})
+			}
 			return cases
 		},
 		Exec: func(c *Ctx, k Case) []Rec {
@@ -260,7 +276,7 @@ func init() {
 				return []Rec{{"kind": "stretch", "sub": cs(k, "kind"), "a": a, "b1": b1, "b2": b2, "bn": bn, "n": ci(k, "n"), "unit": chars(unit), "sameBytes": bytes.Equal(aout, bnout)}}
 			}
 			for i := 0; i < ci(k, "variants"); i++ {
-				vt := joinTokens(toks, rng, false, 1+rng.Intn(4))
+				vt := joinTokens(toks, rng, false, 1+rng.Intn(4), cb(k, "padAll"))
 				b, bout := convRec(c, mode, key, vt)
 				recs = append(recs, Rec{"kind": "pair", "sub": fmt.Sprint(i), "a": a, "b": b, "sameBytes": bytes.Equal(aout, bout)})
 			}
